@@ -675,11 +675,6 @@ def request_vs_close_runs(chk):
                         bad = ("lost", "the requesting thread ended without an outcome")
                     elif out[0][0] == "ok" and out[0][1] != 41:
                         bad = ("value", "the request returned %r, the peer sent 41" % (out[0][1],))
-                    elif out[0][0] == "exc" and overlapped and isinstance(out[0][1], (ValueError, OSError)) and \
-                            "closed file" in str(out[0][1]).lower():
-                        # PipeStream.close() closes its files before it swaps in the closed-file markers: a reader running at that
-                        # very moment sees the closed file object itself (observation in DESIGN.md, not judged here)
-                        bad = None
                     elif out[0][0] == "exc" and not isinstance(out[0][1], (EOFError, AsyncResultTimeout)):
                         bad = ("exception", "the request failed with %s: %s instead of EOFError" % (type(out[0][1]).__name__, out[0][1]))
                     if bad:
@@ -693,6 +688,64 @@ def request_vs_close_runs(chk):
     finally:
         lp.shutdown()
     chk.cov["request_vs_close"] = {"scenarios": n, "window_reached": reached}
+
+
+def stream_close_windows(chk):
+    """the thread that closes the connection is stopped before each statement of the stream's close() while another thread of
+    the same side serves and sends a request: both must end in EOFError (or their timeout), whatever the closing thread has
+    done so far"""
+    import socket
+    import threading
+    import rpyc
+    from rpyc.core.stream import SocketStream, PipeStream
+    from rpyc.core.async_ import AsyncResultTimeout
+    from harness import linepause as lp
+    n = 0
+    try:
+        for cls in (SocketStream, PipeStream):
+            for (ln, text) in lp.lines_of(cls.close):
+                if cls is SocketStream:
+                    a, b = socket.socketpair()
+                    s1, s2 = SocketStream(a), SocketStream(b)
+                else:
+                    s1, s2 = PipeStream.create_pair()
+                c1 = rpyc.connect_stream(s1, rpyc.VoidService)
+                c2 = rpyc.connect_stream(s2, rpyc.VoidService)
+                bp = lp.arm(cls.close, ln, thread_filter=lambda th: th.name == "verif-closer")
+                t = threading.Thread(target=lambda: _quiet(c1.close), name="verif-closer", daemon=True)
+                t.start()
+                hit = bp.wait_hit(1.0)
+                res = []
+                if hit:
+                    for op in ("serve", "ping"):
+                        try:
+                            if op == "serve":
+                                c1.serve(0.05)
+                            else:
+                                c1.ping(timeout=0.5)
+                            res.append((op, None))
+                        except BaseException as ex:  # noqa
+                            res.append((op, ex))
+                bp.release()
+                t.join(3)
+                lp.disarm_all()
+                chk.evaluated()
+                n += 1
+                if hit:
+                    chk.distinct(("stream-close", cls.__name__, text))
+                    bad = [(op, ex) for op, ex in res if ex is not None and not isinstance(ex, (EOFError, AsyncResultTimeout))]
+                    for op, ex in bad[:1]:
+                        chk.violation("stream-close:%s:%s" % (cls.__name__, op), "C11 [one thread inside %s.close(), stopped before `%s`; "
+                                      "another thread of the same side calls %s] it failed with %s: %s instead of EOFError" % (
+                                          cls.__name__, text, "serve()" if op == "serve" else "ping()", type(ex).__name__, ex),
+                                      {"workload": "stream-close", "stream": cls.__name__, "text": text})
+                    if not bad:
+                        chk.validated()
+                for c in (c1, c2):
+                    _quiet(c.close)
+    finally:
+        lp.shutdown()
+    chk.cov["stream_close_windows"] = n
 
 
 def _quiet(f):
@@ -761,6 +814,7 @@ def main():
     real_pipe_runs(chk)
     concurrent_end_runs(chk)
     request_vs_close_runs(chk)
+    stream_close_windows(chk)
     # a connection shared by threads (RpycServe's setting): the peer vanishes at an arbitrary moment
     from harness.drivers import serve_common as svc
     for cfgf, what in (("MC_RpycServeEof_2.cfg", "2 client threads"), ("MC_RpycServeEof_1bg.cfg", "1 client + background serving thread")):
